@@ -6,4 +6,4 @@ CONSTANTS
 INIT Init
 NEXT Next
 INVARIANTS TerminalIsClassified ErrorHasCause DoneIsClean ScopesWellFormed HeapWellFormed LoopsTerminate OnlyStrayFails EmitInv
-PROPERTIES NoEffectAfterError Monotone StoreLocal OutputAppendOnly
+PROPERTIES NoEffectAfterError Monotone StoreLocal OutputAppendOnly ReturnUnwindsToCall
